@@ -6,7 +6,9 @@ RULE = ("MC: QueueMC with NotBefore / NoStarvation (exact min(batch, ready) and 
         "constraint); GEN: every edge of the bounded graph with clock steps that cross lease and delay boundaries; seeded 'time' driver with "
         "ticks 1/9/10/11/19/20/21 ms around the sweep granularity, nack delays, scheduled-future messages, batch sizes -1..250, route/target "
         "filters; executed on memory and SQLite; every dequeue validated by TLC: returned set subset of Ready, |returned| = min(batch', |Ready|), "
-        "lease_until = now + ttl', sweep only when due. distinct_nontrivial = validated events.")
+        "lease_until = now + ttl', sweep only when due. L1: dequeues through the Pull API / Worker API of production-wired instances "
+        "(max_batch 1..100, requests for up to 250 of 285 ready messages; Compile must refuse a max_batch the stores cannot serve), "
+        "validated by PullTrace.tla: exactly min(min(batch, max_batch), |ready of the endpoint's route|). distinct_nontrivial = validated events.")
 PROPS = ["NotBefore", "NoStarvation", "LeaseExclusive", "Conservation"]
 
 
@@ -25,6 +27,7 @@ def run(ctx):
                         ("time_sql", sql, dict(family=("lease", "deqvar"), horizon=30, maxep=2, maxins=1, pick="nextrun", ttls=(5,), ticks=(1, 9, 10), delays=(0, 5)), 1)],
                 "drv": [("time", "time", 4000, 90, {})]}
     q.liveness(ctx)
+    q.pull_part(ctx, 24 if ctx.quick else 400, 50, 4)
     q.run_plan(ctx, plan, RULE, assumptions=["long-poll waiting (MaxWait > 0) uses real time and is kept 0 at this layer",
                                              "crash/restart while leased is covered by the C01 crash machinery; pull max_batch cap by the L1 part"])
 
